@@ -4,6 +4,7 @@
 # VF_BASE=<git rev> takes the copy from that revision of /repo instead of the working tree.
 set -e
 patch="$1"; tier="$2"; shift 2
+case "$patch" in -|/*) ;; *) patch="$(pwd)/$patch";; esac
 tmp=$(mktemp -d "${TMPDIR:-/tmp}/vf-mut-XXXXXX")
 trap 'rm -rf "$tmp"' EXIT
 if [ -n "$VF_BASE" ]; then
